@@ -16,7 +16,8 @@ EXPLANATION = (
     " (g) Purges of the rerun queue keep UnregisterResend and every other kind. (h) add_interface does not replace an existing DnsRegistry."
     " (i) The per-interface status is never reset to Unknown while the interface is in use."
     " (j) The repeat of a goodbye is queued with is_ipv4 = true exactly in the branch that used the IPv4 socket."
-    " (k) After a successful removal every path of exec_command_unregister enters the goodbye loop, whatever happens to the status reply, and DnsRegistry.name_changes is not edited before the goodbye was built. (l) After the IPv4 goodbye of an interface the IPv6 socket is always tried.")
+    " (k) After a successful removal every path of exec_command_unregister enters the goodbye loop, whatever happens to the status reply, and DnsRegistry.name_changes is not edited before the goodbye was built. (l) After the IPv4 goodbye of an interface the IPv6 socket is always tried."
+    " (m) as C06q. (n) No purge of the rerun queue names UnregisterResend (it carries no service name).")
 UNDECIDED = ["what later queries observe over histories", "timing of the repeat on the wire"]
 
 
@@ -214,6 +215,9 @@ def run(ctx, P):
     r2.resend_goes_out_on_the_family_it_was_built_for(ctx, P, "C09j")
     r2.goodbye_independent_of_reply_and_state_order(ctx, P, "C09k")
     r2.both_families_every_interface(ctx, P, "C09l")
+    from . import r4
+    r4.shared_host_rename_outlives_one_service(ctx, P, "C09m")
+    r4.goodbye_repeat_never_cancelled(ctx, P, "C09n")
     clause_a(ctx, P)
     clause_b(ctx, P)
     clause_c(ctx, P)
